@@ -252,6 +252,11 @@ class TDS(BaseRoutine):
         # if `dae.n == 1`, `calc_h_first` depends on new `dae.gy`
         self.calc_h()
 
+        # when replaying from CSV, `calc_h` has advanced the row pointer, but the
+        # first pass of the main loop is still at the initial time: replay row 0 there
+        if self.data_csv is not None:
+            self.k_csv = 0
+
         # allocate for internal variables
         self.x0 = np.zeros_like(system.dae.x)
         self.y0 = np.zeros_like(system.dae.y)
